@@ -11,6 +11,7 @@ mod zoo;
 mod eval;
 mod named;
 mod rng;
+mod stop;
 mod strategy;
 mod tree;
 mod util;
@@ -41,6 +42,7 @@ fn main() {
         ["gen", "run"] => cfr::gen_run(&args),
         ["replay", "run"] => cfr::replay_run(&args),
         ["record", "solve"] => monitor::record(&args),
+        ["record", "stop"] => stop::record(&args),
         other => {
             eprintln!("unknown command {other:?}");
             std::process::exit(2);
